@@ -97,6 +97,29 @@ theorem expr_roundtrip_partial (e : Expr) (h : e.wellFormed = true) :
     unmarshal (marshalRaw e) = .ok e := by
   rw [expr_roundtrip_exact, h]; rfl
 
+/-! ## Marshal is injective (it is also used as a map key: query/operator keys
+`TagFilterResult` by `string(stmt.Marshal(expr))`) -/
+
+/-- two well-formed trees with the same wire value are the same tree -/
+theorem marshal_injective (e₁ e₂ : Expr) (h₁ : e₁.wellFormed = true) (h₂ : e₂.wellFormed = true)
+    (h : marshalRaw e₁ = marshalRaw e₂) : e₁ = e₂ := by
+  have r₁ := expr_roundtrip_partial e₁ h₁
+  have r₂ := expr_roundtrip_partial e₂ h₂
+  rw [h, r₂] at r₁
+  injection r₁ with h'
+  exact h'.symm
+
+theorem tagFilter_wellFormed (e : Expr) (h : e.isTagFilter = true) : e.wellFormed = true := by
+  cases e with
+  | not x => cases x <;> simp_all [Expr.isTagFilter, Expr.wellFormed]
+  | _ => simp_all [Expr.isTagFilter, Expr.wellFormed]
+
+/-- the map key of a tag filter determines the filter — unconditionally -/
+theorem marshal_injective_tagFilter (e₁ e₂ : Expr) (h₁ : e₁.isTagFilter = true)
+    (h₂ : e₂.isTagFilter = true) (h : marshal e₁ = marshal e₂) : e₁ = e₂ := by
+  apply marshal_injective e₁ e₂ (tagFilter_wellFormed e₁ h₁) (tagFilter_wellFormed e₂ h₂)
+  cases e₁ <;> cases e₂ <;> simp_all [Expr.isTagFilter, marshalRaw]
+
 /-! ## Interval ↦ String ↦ Interval -/
 
 theorem interval_roundtrip_exact (v : Int) :
@@ -245,6 +268,63 @@ theorem wire_expr_roundtrip_partial (C : TextCodec) (e : Expr) (h : e.wellFormed
   cases e with
   | nil => simp [Expr.wellFormed] at h
   | _ => exact this
+
+/-- as bytes: equal map keys (encoded text) of two tag filters ⇒ equal filters -/
+theorem wire_marshal_injective_tagFilter (C : TextCodec) (e₁ e₂ : Expr) (h₁ : e₁.isTagFilter = true)
+    (h₂ : e₂.isTagFilter = true) (h : C.encode (marshal e₁) = C.encode (marshal e₂)) : e₁ = e₂ := by
+  apply marshal_injective_tagFilter e₁ e₂ h₁ h₂
+  have p₁ := C.parse_encode _ (marshal_wireOk e₁)
+  have p₂ := C.parse_encode _ (marshal_wireOk e₂)
+  rw [h, p₂] at p₁
+  injection p₁ with h'
+  exact h'.symm
+
+/-! ## What "parsing is deterministic" means (the parser itself is NOT modelled)
+
+`sql.Parse` is outside the model. The property's second sentence is taken extensionally: the
+implementation must behave like a FUNCTION of the text (and of the clock, for ranges relative to
+`now()`), whatever callers do with statements they obtained earlier — in particular the root's
+planner rewrites its statement in place. The harness records observations `(text, dump of the
+result)`, where between two observations every earlier result has been planned / rewritten in
+every field, sequentially and from concurrent requests; the oracle is `Functional` below.
+A parser that returns shared mutable structure (statement cache, pooled nodes) produces a
+non-functional trace. The two lemmas say this notion is exactly "there is a parse function". -/
+
+/-- a trace of observations `(input, observed result)` is functional -/
+def Functional {α β : Type} (tr : List (α × β)) : Prop :=
+  ∀ a b₁ b₂, (a, b₁) ∈ tr → (a, b₂) ∈ tr → b₁ = b₂
+
+/-- observations of a pure function are functional, for every sequence of inputs -/
+theorem functional_of_function {α β : Type} (f : α → β) (inputs : List α) :
+    Functional (inputs.map (fun a => (a, f a))) := by
+  intro a b₁ b₂ h₁ h₂
+  simp only [List.mem_map, Prod.mk.injEq] at h₁ h₂
+  obtain ⟨x, _, rfl, rfl⟩ := h₁
+  obtain ⟨y, _, rfl, rfl⟩ := h₂
+  rfl
+
+/-- conversely a functional trace is explained by some function -/
+theorem function_of_functional {α β : Type} [DecidableEq α] [Inhabited β] (tr : List (α × β))
+    (h : Functional tr) : ∃ f : α → β, ∀ p ∈ tr, p.2 = f p.1 := by
+  refine ⟨fun a => match tr.find? (fun p => p.1 == a) with | some p => p.2 | none => default, ?_⟩
+  intro p hp
+  have hs : (tr.find? (fun q => q.1 == p.1)).isSome := by
+    rw [List.find?_isSome]; exact ⟨p, hp, by simp⟩
+  cases hf : tr.find? (fun q => q.1 == p.1) with
+  | none => rw [hf] at hs; cases hs
+  | some q =>
+    have hq := List.mem_of_find?_eq_some hf
+    have hk : q.1 = p.1 := by simpa using List.find?_some hf
+    show p.2 = match tr.find? (fun q => q.1 == p.1) with | some p => p.2 | none => default
+    rw [hf]
+    exact h p.1 p.2 q.2 hp (by rw [← hk]; exact hq)
+
+/-- a trace in which a re-parse of the same text differs (the shape a shared, planned statement
+produces) is not functional -/
+example : ¬ Functional [("select f from cpu", (0 : Nat)), ("select f from cpu", 60000)] := by
+  intro h
+  have := h "select f from cpu" 0 60000 (by simp) (by simp)
+  cases this
 
 /-! ## Error branches of `Unmarshal`, stated explicitly -/
 
